@@ -217,7 +217,10 @@ def e2e_run(run, exe, lines, tag):
     verd = core.run_model("pmap-spec", run.casefile("pmap-%s-spec.txt" % tag,
                                                     ["%s # %s" % (lines[i], impl[i]) for i in ok_idx]))
     spec = {i: v for i, v in zip(ok_idx, verd) if v != "ok"}
-    tie = [i for i in ok_idx if model[i] != "-" and model[i] != impl[i].rsplit(" H=", 1)[0]]
+    def differs(m, o):
+        mt, ot = m.split(), o.rsplit(" H=", 1)[0].split()
+        return len(mt) != len(ot) or any(a != "?" and a != b for a, b in zip(mt, ot))
+    tie = [i for i in ok_idx if model[i] != "-" and differs(model[i], impl[i])]
     return model, impl, crashes, spec, tie
 
 
